@@ -86,6 +86,23 @@ impl Runner {
         o
     }
 
+    /// execute_batch: all statements in one transaction
+    pub fn batch(&mut self, sts: &[Stmt]) -> Out {
+        let tx = self.fresh_tx();
+        self.t.ev(json!({"ev": "begin", "s": 0, "tx": tx, "auto": true, "out": {"k": "unit"}}));
+        let sqls: Vec<String> = sts.iter().map(|s| s.sql()).collect();
+        let o = self.eng.batch(sqls.clone());
+        self.stmts += sts.len();
+        self.note(&o);
+        self.t.ev(json!({"ev": "batch", "s": 0, "sqls": sqls, "qs": sts.iter().map(|s| s.json()).collect::<Vec<_>>(), "out": out_json(&o)}));
+        if o.is_ok() {
+            self.t.ev(json!({"ev": "commit", "s": 0, "auto": true, "out": {"k": "unit"}}));
+        } else {
+            self.t.ev(json!({"ev": "rollback", "s": 0, "auto": true}));
+        }
+        o
+    }
+
     pub fn begin(&mut self, s: u32) -> Out {
         let tx = self.fresh_tx();
         let o = self.eng.begin(s);
